@@ -65,6 +65,20 @@ INSTANCES = {
                      dict(tasks=[(1, [], 0, 2), (2, [], 0, 2), (3, [2], 1, 2)], climit=1, max_fails=1),
                      dict(tasks=[(1, [], 1, 1), (2, [], 0, 1)], climit=-1, max_fails=0)],
                losses=2, cancels=2, fails=2, launch_fails=1, pf_reserve=0, pf_max=2, modes=[], tier="sim"),
+    # one worker whose backlog holds tasks of two jobs; call-back by a higher-priority job; cancels in flight
+    "S3": dict(workers=[1], classes=[1],
+               menu=[dict(tasks=[(1, [], 0, 0), (2, [], 0, 0)], climit=0, max_fails=-1),
+                     dict(tasks=[(1, [], 0, 0), (2, [], 0, 0), (3, [], 0, 0)], climit=0, max_fails=-1),
+                     dict(tasks=[(1, [], 0, 9)], climit=0, max_fails=-1),
+                     dict(tasks=[(1, [], 0, 9)], climit=0, max_fails=-1)],
+               losses=0, cancels=2, fails=1, launch_fails=0, pf_reserve=0, pf_max=2, modes=[], tier="sim"),
+    # a class with two variants of different size on one 4-cpu worker, pre-sent tasks, call-backs
+    "V": dict(workers=[4], classes=[("var", [1, 3]), 1, 2, 3],   # (identical requests would be merged into one class by the server)
+              menu=[dict(tasks=[(1, [], 0, 0), (2, [], 0, 0), (3, [], 0, 0), (4, [], 0, 0)], climit=0, max_fails=-1),
+                    dict(tasks=[(1, [], 1, 0)], climit=0, max_fails=-1),
+                    dict(tasks=[(1, [], 2, 9)], climit=0, max_fails=-1),
+                    dict(tasks=[(1, [], 3, 0)], climit=0, max_fails=-1)],
+              losses=0, cancels=1, fails=0, launch_fails=0, pf_reserve=0, pf_max=2, modes=[], tier="sim"),
     "S2": dict(workers=[1, 1], classes=[1],
                menu=[dict(tasks=[(1, [], 0, 0), (2, [], 0, 0), (3, [], 0, 0), (4, [], 0, 0), (5, [], 0, 0), (6, [5], 0, 0)], climit=0, max_fails=-1),
                      dict(tasks=[(1, [], 0, 5), (2, [], 0, 5)], climit=0, max_fails=-1),
@@ -99,7 +113,13 @@ def instance_tla(name, inst):
     ws = " @@ ".join(f"({i + 1} :> {c * 10000})" for i, c in enumerate(inst["workers"]))
     groups = inst.get("groups") or ["default"] * len(inst["workers"])
     gs = " @@ ".join(f'({i + 1} :> "{g}")' for i, g in enumerate(groups))
-    cls = ", ".join(f"Mn({c[1]})" if isinstance(c, tuple) else f"Cpu({c * 10000})" for c in inst["classes"])
+    def cls_tla(c):
+        if isinstance(c, tuple) and c[0] == "mn":
+            return f"Mn({c[1]})"
+        if isinstance(c, tuple) and c[0] == "var":
+            return " \\o ".join(f"Cpu({a * 10000})" for a in c[1])
+        return f"Cpu({c * 10000})"
+    cls = ", ".join(cls_tla(c) for c in inst["classes"])
     menu = []
     for j, s in enumerate(inst["menu"]):
         ts = ", ".join(f"T({t[0]}, {tla_set(t[1])}, {t[2]}, {t[3]})" for t in s["tasks"])
@@ -156,7 +176,8 @@ def profile_of(name):
         "name": "model" + name, "journal": True, "manual_flush": False, "reserve": inst["pf_reserve"], "pf_max": inst["pf_max"],
         "worker_kinds": [{"cpus": c, "gpus": 0, "group": g, "time_limit": 0} for c, g in kinds],
         "initial_workers": [kinds.index(cg) for cg in zip(inst["workers"], groups)], "max_connects": 0,
-        "classes": [({"variants": [{"cpus": 0, "gpus": 0, "min_time": 0}], "n_nodes": c[1]} if isinstance(c, tuple)
+        "classes": [({"variants": [{"cpus": 0, "gpus": 0, "min_time": 0}], "n_nodes": c[1]} if isinstance(c, tuple) and c[0] == "mn"
+                     else {"variants": [{"cpus": a * 10000, "gpus": 0, "min_time": 0} for a in c[1]], "n_nodes": 0} if isinstance(c, tuple)
                      else {"variants": [{"cpus": c * 10000, "gpus": 0, "min_time": 0}], "n_nodes": 0}) for c in inst["classes"]],
         "submits": [{"into_open": bool((inst.get("open_jobs") or {}).get(s.get("job"), None) is not None) if s.get("job") in (inst.get("open_jobs") or {}) else False, "ids": [], "entries": 0,
                      "graph": [{"id": t[0], "deps": list(t[1]), "class": t[2], "prio": t[3]} for t in s["tasks"]],
@@ -266,15 +287,19 @@ def translate(acts):
     return out
 
 
-def behaviours(name, num, depth, seed, workdir):
-    """-> list of behaviours (each a list of harness choices) simulated by TLC from the model instance."""
+SIG = re.compile(r"^/\\ sig = (.*?)(?=^/\\ |\Z)", re.M | re.S)
+
+
+def behaviours(name, num, depth, seed, workdir, with_sigs=False):
+    """-> list of behaviours (each a list of harness choices) simulated by TLC from the model instance;
+    with_sigs: list of (choices, [abstract signature of every step])"""
     tdir = os.path.join(workdir, f"sim-{name}")
     os.makedirs(tdir, exist_ok=True)
     cfg = os.path.join(SPEC, f"MC_HQSim_{name}.cfg")
     meta = os.path.join(workdir, f"simmeta-{name}")
-    cmd = ["tlc", "-workers", "1", "-seed", str(seed), "-simulate", f"file={tdir}/t,num={num}", "-depth", str(depth), "-metadir", meta,
-           "-noGenerateSpecTE", "-config", cfg, "MC_HQSim.tla"]
-    p = subprocess.run(cmd, cwd=SPEC, stdout=subprocess.PIPE, stderr=subprocess.STDOUT, text=True, timeout=3600)
+    cmd = ["java", "-XX:+UseParallelGC", "-Xmx3g", "-Xss512m", "-cp", common.TLA_CP, "tlc2.TLC", "-workers", "1", "-seed", str(seed),
+           "-simulate", f"file={tdir}/t,num={num}", "-depth", str(depth), "-metadir", meta, "-noGenerateSpecTE", "-config", cfg, "MC_HQSim.tla"]
+    p = subprocess.run(cmd, cwd=SPEC, stdout=subprocess.PIPE, stderr=subprocess.STDOUT, text=True, timeout=7200)
     shutil.rmtree(meta, ignore_errors=True)
     if "traces generated" not in p.stdout and "Finished in" not in p.stdout:
         raise common.ToolError("simulation failed: " + p.stdout[-3000:])
@@ -284,9 +309,72 @@ def behaviours(name, num, depth, seed, workdir):
         acts = [parse_act(m) for m in LAST_ACT.findall(txt)]
         ch = translate(acts)
         if ch:
-            res.append(ch)
+            if with_sigs:
+                sigs = [" ".join(m.split()) for m in SIG.findall(txt)]
+                res.append((ch, sigs))
+            else:
+                res.append(ch)
     shutil.rmtree(tdir, ignore_errors=True)
     return res
+
+
+def select_covering(behs, k=4, cap=400):
+    """greedy choice of behaviours so that every step signature seen is covered k times (or as often as it occurs)"""
+    total = {}
+    for _, sigs in behs:
+        for x in set(sigs):
+            total[x] = total.get(x, 0) + 1
+    have = {}
+    chosen = []
+    # rare signatures first
+    order = sorted(range(len(behs)), key=lambda i: min((total[x] for x in behs[i][1]), default=10**9))
+    for i in order:
+        sigs = set(behs[i][1])
+        if any(have.get(x, 0) < min(k, total[x]) for x in sigs):
+            chosen.append(i)
+            for x in sigs:
+                have[x] = have.get(x, 0) + 1
+        if len(chosen) >= cap:
+            break
+    return [behs[i][0] for i in chosen], len(total)
+
+
+CORPUS = os.path.join(common.VERIF, "regress", "model")
+
+
+def build_corpus(num=4000, depth=80, seed=1, k=4, only=None):
+    """(re)generates the committed corpus of model behaviours: regress/model/<instance>.ndjson"""
+    os.makedirs(CORPUS, exist_ok=True)
+    work = common.scratch()
+    summary = {}
+    try:
+        import concurrent.futures as cf
+
+        def one(name):
+            behs = behaviours(name, num, depth, seed, work, with_sigs=True)
+            sel, nsig = select_covering(behs, k)
+            with open(os.path.join(CORPUS, f"{name}.ndjson"), "w") as f:
+                for b in sel:
+                    f.write(json.dumps(b) + "\n")
+            return name, {"simulated": len(behs), "distinct_step_signatures": nsig, "kept": len(sel)}
+        with cf.ThreadPoolExecutor(max_workers=11) as ex:
+            for name, r in ex.map(one, sorted(n for n in INSTANCES if not only or n in only)):
+                summary[name] = r
+                print(name, r, flush=True)
+        sf = os.path.join(CORPUS, "SUMMARY.json")
+        old = json.load(open(sf)).get("instances", {}) if os.path.exists(sf) and only else {}
+        old.update(summary)
+        json.dump({"num": num, "depth": depth, "seed": seed, "k": k, "instances": old}, open(sf, "w"), indent=1)
+    finally:
+        shutil.rmtree(work, ignore_errors=True)
+    return summary
+
+
+def corpus_behaviours(name):
+    f = os.path.join(CORPUS, f"{name}.ndjson")
+    if not os.path.exists(f):
+        return []
+    return [json.loads(l) for l in open(f) if l.strip()]
 
 
 def guided_shard(workdir, name, behs, first_run=0, tag="sim"):
@@ -316,6 +404,8 @@ if __name__ == "__main__":
     if sys.argv[1:] == ["gen"]:
         generate()
         print("generated")
+    elif sys.argv[1:2] == ["corpus"]:
+        build_corpus(*[int(x) for x in sys.argv[2:6]], only=sys.argv[6:] or None)
     elif sys.argv[1:2] == ["mc"]:
         for r in model_check(sys.argv[2] if len(sys.argv) > 2 else "thorough"):
             print(json.dumps({k: r[k] for k in ("instance", "mode", "distinct_states", "states_generated", "depth", "completed", "violated", "cached")}))
